@@ -676,7 +676,7 @@ def c04_cells(tier):
     for b0 in (BEH.index('value'), BEH.index('exc'), BEH.index('raise')):
         for sfx, pre in product_pre([parts('gaps[1]', [(0, 5), (6, 12)]), parts('gaps[2]', [(0, 5), (6, 12)])]):
             out.append(Cell(name='c04_retained_aaa_%s_p%s' % (BEH[b0], sfx), sig='gaps: List[int], rt: int, batch_dur: int',
-                            pre=['len(gaps) == 3 and gaps[0] == 0 and 1 <= rt <= 6 and 0 <= batch_dur <= 1', pre],
+                            pre=['len(gaps) == 3 and gaps[0] == 0 and 0 <= rt <= 6 and 0 <= batch_dur <= 1', pre],
                             body='H.scen_c04(gaps, [0, 0, 0], [%d, 0, 0], 0, 0, batch_dur, 2, 1, rt, 3, False)' % b0,
                             tier=q, timeout=600, family='c04', weight=3))
     out.append(Cell(name='twin_c04_partial_failure', sig='gaps: List[int], kidx: List[int], beh: List[int]',
